@@ -3,6 +3,7 @@ use crate::fw::{PropertyDef, Tier};
 pub mod checker;
 pub mod common;
 pub mod e2e;
+pub mod ext;
 pub mod pgen;
 pub mod refmodel;
 pub mod relgen;
